@@ -63,8 +63,12 @@ def run(ctx):
     n = 2
 
     # ================================================================= Part A: solve()
-    for prec, storage, lu_fails in (("none", "dense", False), ("none", "sparse", False), ("left_lu", "dense", False),
-                                    ("left_lu", "dense", True), (None, "dense", False)):
+    # (the permutation factor handed back by the LU summary is a CONCRETE cyclic shift - a swap for n = 2, a 3-cycle, which is not its
+    #  own inverse, for n = 3 - so that code which reads the permutation off P (argmax, nonzero ...) can be interpreted and a
+    #  transposed / inverted permutation shows; L and U stay generic)
+    for prec, storage, lu_fails, n, cycleP in (("none", "dense", False, 2, False), ("none", "sparse", False, 2, False),
+                                               ("left_lu", "dense", False, 2, True), ("left_lu", "dense", True, 2, False),
+                                               (None, "dense", False, 2, False), ("left_lu", "dense", False, 3, True)):
         rec = {"core": [], "lu": [], "lin": {}}
 
         def s_core(it, self_, A0, A1, A2, A3, b0, b1, b2, b3, tol, maxit, rec=rec):
@@ -74,12 +78,17 @@ def run(ctx):
             Vs = [sym_real(f"V{p}_", (N, 1)) for p in range(4)]
             return (*xs, Poly.atom("res_internal"), *Vs, 1, [[1, Poly.atom("r_ym"), Poly.atom("res_internal")]])
 
-        def s_lu(it, A, return_p=False, rec=rec, lu_fails=lu_fails):
+        def s_lu(it, A, return_p=False, rec=rec, lu_fails=lu_fails, cycleP=cycleP):
             rec["lu"].append((wrap(A).copy(), return_p))
             if lu_fails:
                 raise RepoRaise("ValueError", None, "quaternion_lu", ("Zero pivot encountered",))
             m = A.shape[0]
             rec["L"], rec["U"], rec["P"] = sym_quat("l", (m, m)), sym_quat("u", (m, m)), sym_quat("p", (m, m))
+            if cycleP:
+                Pc = mk((m, m), "quat")
+                for i_ in range(m):
+                    Pc[i_, (i_ + 1) % m] = SQ(1)
+                rec["P"] = Pc
             return (rec["L"].copy(), rec["U"].copy(), rec["P"].copy()) if return_p else (rec["L"].copy(), rec["U"].copy())
 
         def lin_solver(kind):
@@ -98,7 +107,7 @@ def run(ctx):
         b = sym_quat("b", (n, 1))
         Ain = sparse_from_dense(it, ctx, A) if storage == "sparse" else A
         inst = Instance(c_g, dict(tol=TOL, max_iter=None, verbose=False, preconditioner=prec or "none"))
-        tag = f"solve preconditioner={prec} storage={storage} lu_fails={lu_fails}"
+        tag = f"solve preconditioner={prec} storage={storage} lu_fails={lu_fails}" + (f" n={n} P=cyclic shift" if cycleP else "")
         st, out = run_guarded(lambda: it.run(f_solve, [Ain, b], bound_self=inst))
         if st != "ok":
             ctx.ob("C04.D1.residual", tag, False, f"solve fails in-domain: {out}", where=f_solve.where, construct="solve fails",
